@@ -33,10 +33,13 @@ const (
 	RKBufio16   = 5 // smaller than every library minimum: forces re-wrapping
 	RKBufio32   = 6 // exactly the TIFF header search window
 	RKBufio24   = 7 // exactly the sniffing window
-	NumRK       = 8
+	RKBufio64   = 8 // sizes between the scanners' own windows and the 4 KiB the value readers need:
+	RKBufio256  = 9 // a caller's reader of such a size must be wrapped, not adopted
+	RKBufio1024 = 10
+	NumRK       = 11
 )
 
-var RKNames = []string{"raw", "readeronly", "bufio4096", "bufio8192", "bufio65536", "bufio16", "bufio32", "bufio24"}
+var RKNames = []string{"raw", "readeronly", "bufio4096", "bufio8192", "bufio65536", "bufio16", "bufio32", "bufio24", "bufio64", "bufio256", "bufio1024"}
 
 // Env is the per-call environment chosen by the simulator.
 type Env struct {
@@ -130,6 +133,15 @@ func mkReader(env *Env, r *world.SimReader, res *Result) io.Reader {
 		return res.Br
 	case RKBufio24:
 		res.Br = bufio.NewReaderSize(r, 24)
+		return res.Br
+	case RKBufio64:
+		res.Br = bufio.NewReaderSize(r, 64)
+		return res.Br
+	case RKBufio256:
+		res.Br = bufio.NewReaderSize(r, 256)
+		return res.Br
+	case RKBufio1024:
+		res.Br = bufio.NewReaderSize(r, 1024)
 		return res.Br
 	}
 	return r
